@@ -188,4 +188,17 @@ pub mod models {
         }
         n
     }
+
+    /// `once(a).chain(rest.map(f))`: every item is either the once-value (tag true) or f(element) (tag false)
+    pub fn chain_loop(first: i32, rest: &[i32]) -> i32 {
+        let mut n = 0;
+        for (x, tag) in std::iter::once((first, true)).chain(rest.iter().map(|r| (*r, false))) {
+            if tag {
+                n += x;
+            } else {
+                n -= 1;
+            }
+        }
+        n
+    }
 }
